@@ -32,13 +32,21 @@ def _storage(kind, rows):
     return st
 
 
-def replay(rec, container, storage_kind, names_kind="str"):
+def _phi(v, zero):
+    """relabelling of the specification's values: with zero set, the value of feature 1 in stored row 1 is the number 0
+    (a background value is a value even when it is falsy) and the instance's last feature is 0.0 with another sign bit"""
+    if zero and v == 101:
+        return 0
+    return v
+
+
+def replay(rec, container, storage_kind, names_kind="str", zero=False, keywords=False):
     """returns list of (clause, detail)"""
     from ixai.imputer import MarginalImputer, DefaultImputer
     d, n, nrows, strategy = rec["d"], rec["n"], rec["nrows"], rec["strategy"]
     names = ["f%d" % i for i in range(1, d + 1)] if names_kind == "str" else [float(i) if i % 2 else i for i in range(1, d + 1)]
-    x = {nm: 10 * (i + 1) for i, nm in enumerate(names)}
-    rows = [{nm: 100 * r + (i + 1) for i, nm in enumerate(names)} for r in range(1, nrows + 1)]
+    x = {nm: _phi(10 * (i + 1), zero) for i, nm in enumerate(names)}
+    rows = [{nm: _phi(100 * r + (i + 1), zero) for i, nm in enumerate(names)} for r in range(1, nrows + 1)]
     seen_inputs = []
 
     def model(inp):
@@ -66,11 +74,11 @@ def replay(rec, container, storage_kind, names_kind="str"):
     probs = []
     try:
         with Tape(mode="script", script=script) as tape:
-            res = imp.impute(subset, x, n)
+            res = imp.impute(feature_subset=subset, x_i=x, n_samples=n) if keywords else imp.impute(subset, x, n)
             leftover = len(tape.script)
     except TapeMismatch as e:
         return [("replay.impute.draw_range" if e.reason == "range" else "replay.impute.not_followed", str(e))]
-    want = [[inp[f - 1] for f in range(1, d + 1)] for inp in rec["inputs"]]
+    want = [[_phi(inp[f - 1], zero) for f in range(1, d + 1)] for inp in rec["inputs"]]
     got = [[inp.get(nm) for nm in names] for inp in seen_inputs]
     if strategy == "default":
         # DefaultImputer may evaluate the (deterministic) model once and repeat the prediction
